@@ -135,6 +135,23 @@ def run_history(case, root, ID, ls_after_each=False):
                 sim.w.clock_offset += op["jump"]
                 kinds_seq.append("clock")
                 continue
+            if kind == "putfile":
+                # the module store changes while the session runs
+                sim.w.put_file(op["path"], lang.render_module(op["ir"]))
+                mstore.files[op["path"]] = {"ir": op["ir"]}
+                probes["store_changed_mid_session"] = 1
+                kinds_seq.append("putfile")
+                continue
+            if kind == "rmfile":
+                import os as _os
+                try:
+                    _os.remove(sim.w.real(op["path"]))
+                except OSError:
+                    pass
+                mstore.files.pop(op["path"], None)
+                probes["store_changed_mid_session"] = 1
+                kinds_seq.append("rmfile")
+                continue
             inst = op.get("inst", "A")
             if inst not in machines:
                 continue
@@ -150,6 +167,11 @@ def run_history(case, root, ID, ls_after_each=False):
                     from ckl.functions import Environment
                     envs_m[key] = lang.Scope(m.session, "scratch")
                     envs_s[key] = Environment()
+                    if cfg.get("deep_env"):
+                        # the caller's environment is itself a child of
+                        # another (fresh) environment
+                        envs_s[key] = envs_s[key].newEnv().newEnv()
+                        probes["deep_caller_env"] = 1
                     env_owner[key] = inst
                     probes["scratch_env"] = 1
                 mscope = envs_m[key]
